@@ -554,11 +554,19 @@ func runForced(kind string, in []string, scale int) []string {
 	// The model said the last pick must block, the implementation went on: a lock / rendezvous was bypassed.
 	// Complete the run under control (lowest-numbered party that can move, one at a time) so that the
 	// linearizability oracle can judge what the bypass led to.
+	// The same controlled completion is made whenever the schedule did not run everything to the end (it ended
+	// early, or a pick blocked that the model did not announce): the completed execution is a real execution of
+	// the implementation with known intervals, so the oracle can judge it.
 	var bypassSnap []string
-	if expectBlock && status == "" && !c.allSettledDone(n) {
+	unexpectedBlock := strings.HasPrefix(status, "blocked@") && !(expectBlock && status == fmt.Sprintf("blocked@%d", len(sched)-1))
+	if (status == "" || unexpectedBlock) && !c.allSettledDone(n) {
+		snapStatus := "unfinished"
+		if unexpectedBlock {
+			snapStatus = status
+		}
 		// what the schedule itself led to (compared with the model) ...
 		c.mu.Lock()
-		bypassSnap = append([]string{"unfinished", string(flags), "-"}, results...)
+		bypassSnap = append([]string{snapStatus, string(flags), "-"}, results...)
 		c.mu.Unlock()
 		bypassSnap = append(bypassSnap, "-", e.idsDistinct())
 		// ... and the controlled completion (judged by the oracle only)
